@@ -90,6 +90,17 @@ class Evaluator:
             return env[e.id]
         if e.id in ('True', 'False', 'None'):
             return {'True': True, 'False': False, 'None': None}[e.id]
+        # a module-level constant of the module the evaluated method lives in (a compiled pattern, a tag literal)
+        mc = getattr(self, 'module_constants', None)
+        if mc and e.id in mc and e.id not in getattr(self, '_resolving', set()):
+            self._resolving = getattr(self, '_resolving', set()) | {e.id}
+            try:
+                v = self.ev(mc[e.id], {})
+            except AnalysisError:
+                v = Opaque(e.id)
+            finally:
+                self._resolving = self._resolving - {e.id}
+            return v
         return Opaque(e.id)
 
     def e_Tuple(self, e, env):
@@ -426,6 +437,8 @@ class Evaluator:
                                     % (type(st).__name__, getattr(st, 'lineno', '?')))
 
     def call_method(self, obj: Obj, fi: FunctionInfo, args, kw):
+        if fi.module.name.startswith('yatiml'):
+            self.module_constants = fi.module.constants
         params = [a.arg for a in fi.node.args.args]
         env: Dict[str, Any] = {params[0]: obj} if params else {}
         for p, a in zip(params[1:], args):
